@@ -1,4 +1,5 @@
 import SphericalVerif.Props.Sched
+import SphericalVerif.Props.Footprint
 #print axioms Sched.interleave_left
 #print axioms Sched.interleave_right
 #print axioms Sched.interleave_untouched
@@ -8,3 +9,17 @@ import SphericalVerif.Props.Sched
 #print axioms Sched.private_call_avoids_default
 #print axioms Sched.tables_never_written
 #print axioms Sched.interleaveN_indep
+#print axioms Footprint.step3_only
+#print axioms Footprint.step1_only
+#print axioms Footprint.step2_only
+#print axioms Footprint.step4_only
+#print axioms Footprint.step5_only
+#print axioms Footprint.fill_d_only
+#print axioms Footprint.fill_D_only
+#print axioms Footprint.fill_sYlm_only
+#print axioms Footprint.euler_only
+#print axioms Footprint.cpow_only
+#print axioms Footprint.evalH_only
+#print axioms Footprint.rotH_only
+#print axioms Footprint.wigner_H_only
+#print axioms Footprint.gen_D_chain_inplace
